@@ -752,7 +752,7 @@ func (x *Exec) tryReplay(prop string, cfg *PropCfg, r *SolveResult, ob *Oblig, r
 	os.WriteFile(ovf, ov, 0o644)
 	ctx, cancel := context.WithTimeout(context.Background(), 180*time.Second)
 	defer cancel()
-	cmd := exec.CommandContext(ctx, "go", "test", "-overlay", ovf, "-vet=off", "-count=1", "-timeout", "60s", "-run", "^TestGowpReplay$", "./"+rel)
+	cmd := exec.CommandContext(ctx, "go", "test", "-overlay", ovf, "-vet=off", "-count=1", "-timeout", "60s", "-v", "-run", "^TestGowpReplay$", "./"+rel)
 	cmd.Dir = repoDir
 	cmd.Env = append(os.Environ(), "GOFLAGS=-mod=mod", "GOPROXY=off", "GOSUMDB=off")
 	outb, _ := cmd.CombinedOutput()
